@@ -39,6 +39,8 @@ theorem popCfgOf_ok (tr : Key → Bool) (lv : Level) : PopTypesOK (popCfgOf tr l
 def srcPlain (rank : String) (l0 : Nat) : SrcKind → List Key
   | .and _ _ => [(rank, label l0 "intersect_"), (rank, label (l0 + 1) "intersect_")]
   | .lf _ _ => [(rank, label l0 "intersect_"), (rank, label (l0 + 1) "intersect_")]
+  | .orAnd _ _ => [(rank, label l0 "intersect_"), (rank, label (l0 + 1) "intersect_"),
+                   (rank, label (l0 + 4) "intersect_"), (rank, label (l0 + 5) "intersect_")]
   | _ => []
 
 def srcSaved (l0 : Nat) : SrcKind → List Key
@@ -73,6 +75,29 @@ theorem srcSteps_src (tr : Key → Bool) (dflt : Int) (rank : String) (l0 : Nat)
     | emit j => simp at e; subst e; exact lfSteps_src _ _ _ _ _ _ _ _ _ j hs
     | yield c p => simp at e
   | dense x n => intro i hm; simp [srcSteps] at hm
+  | orAnd x y =>
+    intro i hi
+    simp only [srcSteps, List.mem_map] at hi
+    obtain ⟨s, hs, e⟩ := hi
+    cases s with
+    | yield c p => simp at e
+    | emit j =>
+      simp at e; subst e
+      have hin : SrcSteps (srcPlain rank l0 (.orAnd x y)) [] (andSteps rank (label (l0 + 4) "intersect_") (label (l0 + 5) "intersect_")
+          (tr (rank, label (l0 + 4) "intersect_")) (tr (rank, label (l0 + 5) "intersect_"))
+          (viewIdx dflt (u x) (opAt env x)) (viewIdx dflt (u y) (opAt env y))
+          (viewAny dflt (u x) (opAt env x)) (viewAny dflt (u y) (opAt env y))) :=
+        (andSteps_src _ _ _ _ _ _ _ _ _).mono (by intro k hk; simp [srcPlain] at hk ⊢; rcases hk with rfl | rfl <;> simp)
+      have hp := pullStep_mem (andSteps rank (label (l0 + 4) "intersect_") (label (l0 + 5) "intersect_")
+          (tr (rank, label (l0 + 4) "intersect_")) (tr (rank, label (l0 + 5) "intersect_"))
+          (viewIdx dflt (u x) (opAt env x)) (viewIdx dflt (u y) (opAt env y))
+          (viewAny dflt (u x) (opAt env x)) (viewAny dflt (u y) (opAt env y)))
+      rcases List.mem_append.1 hs with hs | hs
+      · obtain ⟨j', hj', e'⟩ := List.mem_map.1 hs
+        simp at e'; subst e'
+        exact hin _ (hp.1 _ hj')
+      · exact andStream_src rank _ _ _ _ (srcPlain rank l0 (.orAnd x y)) (by simp [srcPlain]) (by simp [srcPlain])
+          0 0 _ _ _ (fun j' hj' => hin _ (hp.2 _ hj')) _ hs
   | proj x sr off lo hi own =>
     intro i hm
     simp only [srcSteps, List.mem_map] at hm
@@ -104,6 +129,9 @@ theorem srcKeys_ty (rank : String) (l0 : Nat) (src : SrcKind) :
   · subst hk
     exact ⟨label_project_ne _ _ (by simp), label_project_ne _ _ (by simp),
       label_project_ne _ _ (by simp), label_project_ne _ _ (by simp)⟩
+  · rcases hk with rfl | rfl | rfl | rfl <;>
+      exact ⟨label_intersect_ne _ _ (by simp), label_intersect_ne _ _ (by simp),
+        label_intersect_ne _ _ (by simp), label_intersect_ne _ _ (by simp)⟩
 
 theorem srcKeys_disj (rank : String) (l0 : Nat) (src : SrcKind) :
     ∀ k ∈ srcSaved l0 src, k ∉ srcPlain rank l0 src := by
@@ -118,6 +146,7 @@ theorem srcKeys_names (lv : Level) (l0 : Nat) :
   · rcases hk with rfl | rfl <;> simp
   · rcases hk with rfl | rfl <;> simp
   · subst hk; simp
+  · rcases hk with rfl | rfl | rfl | rfl <;> simp
 
 /-! ### one level -/
 
